@@ -78,8 +78,12 @@ def select(prop):
     from symjnp import contracts as CT
     from symjnp import lemma
     items = []
+    # a property that has DIRECT checks (contracts/direct.py: its own statement as a post-condition on the real code, whole
+    # call tree executed) is decided by those -- the "equals the documented formula" contracts are stronger than such a
+    # property and would alarm on changes under which it still holds
+    direct = any(prop in c.props and "#" in q for q, c in CT.REGISTRY.items())
     for q, c in CT.REGISTRY.items():
-        if prop in c.props:
+        if prop in c.props and (not direct or "#" in q):
             for case in c.cases:
                 items.append(("contract", q, case.label))
     for n, l in lemma.LEMMAS.items():
